@@ -25,8 +25,18 @@ def make_content(resource, version, size):
     return head + body + tail
 
 
-def postprocess_bytes(data):
-    return b"PP(" + data[::-1] + b")"
+def postprocess_bytes(data, name="pp"):
+    """what the post-processor registered under `name` makes of a download: "pp" and "pp2" are two different
+    user functions (same output length), so that a cache which runs the wrong one of several registered
+    functions produces wrong content"""
+    return (b"Q2(" if name == "pp2" else b"PP(") + data[::-1] + b")"
+
+
+def unpostprocess(data):
+    """(raw bytes, name of the post-processor) for post-processed content, (data, None) otherwise"""
+    if data.endswith(b")") and data[:3] in (b"PP(", b"Q2("):
+        return data[3:-1][::-1], ("pp2" if data[:3] == b"Q2(" else "pp")
+    return data, None
 
 
 class Store:
